@@ -116,6 +116,7 @@ ENGINES = {
         "sources": ["sim/net/engine_core.cpp", "sim/net/engine_ops.cpp", "sim/net/engine_ops2.cpp", "sim/net/engine_exec.cpp", "sim/net/engine_oracles.cpp",
                     "sim/net/net_main.cpp", "sim/core/layout.cpp"],
         "libs": ["-lsmt", "-ljson", "-lz3", "-lgmpxx", "-lgmp"],
+        "cxxflags": ["-fno-access-control"],  # oracle N9 reads the DL theories' path trees
     },
     "io": {
         "sources": ["sim/io/io_main.cpp"],
